@@ -16,6 +16,7 @@ Used through `kclass=AnKernel` in tools/kernels_C12.py.  On top of the base tran
   spec['static_tests'] {source text of a test: 'true'|'false'} -- branch fixed at translation time
   spec['list2_names']  [names] -- `name = []` starts a list of arrays
   `d = {}` followed by `d['key'] = v`: entries are the dotted names d.K__key (base translator)
+  `s not in ('a', 'b')` / `s in (...)` on strings; `arr > c` (kind 'boollist'), `np.any(mask)`, `arr[mask]` (lmask)
 
 Everything else falls through to the base class and fails closed there.
 """
@@ -85,6 +86,50 @@ class AnKernel(Kernel):
             return V('num', app('neg', self.to_num(v)))
         return super().expr(node, env)
 
+    def coq_type(self, kind):
+        if kind == 'boollist':
+            return 'list bool'
+        return super().coq_type(kind)
+
+    def compare(self, node, env):
+        if len(node.ops) == 1 and isinstance(node.ops[0], (ast.In, ast.NotIn)) and isinstance(node.comparators[0], ast.Tuple) \
+                and all(isinstance(e, ast.Constant) and isinstance(e.value, str) for e in node.comparators[0].elts):
+            a = self.expr(node.left, env)
+            if a.kind != 'str':
+                raise Unsupported('membership test on ' + a.kind)
+            alts = [app('String.eqb', a.coq, '"' + e.value + '"%string') for e in node.comparators[0].elts]
+            out = alts[0]
+            for x in alts[1:]:
+                out = app('orb', out, x)
+            return V('bool', out if isinstance(node.ops[0], ast.In) else app('negb', out))
+        if len(node.ops) == 1 and isinstance(node.ops[0], (ast.Gt, ast.Lt, ast.GtE, ast.LtE)):
+            a = self.expr(node.left, env)
+            b = self.expr(node.comparators[0], env)
+            if a.kind == 'list' and b.kind in ('num', 'int'):
+                f = {ast.Lt: 'ltb_', ast.LtE: 'leb_', ast.Gt: 'gtb_', ast.GtE: 'geb_'}[type(node.ops[0])]
+                c = self.bind('c', V('num', self.to_num(b)))
+                return V('boollist', f'(map (fun v_ => {f} v_ {paren(c.coq)}) {paren(a.coq)})')
+            if a.kind == 'list' or b.kind == 'list':
+                raise Unsupported('array comparison ' + self.src(node))
+            env2 = dict(env)
+            env2['__a__'] = a
+            env2['__b__'] = b
+            n2 = ast.Compare(left=ast.Name(id='__a__', ctx=ast.Load()), ops=node.ops,
+                             comparators=[ast.Name(id='__b__', ctx=ast.Load())])
+            ast.copy_location(n2, node)
+            ast.fix_missing_locations(n2)
+            return super().compare(n2, env2)
+        return super().compare(node, env)
+
+    def subscript(self, node, env):
+        if not isinstance(node.slice, (ast.Tuple, ast.Slice)):
+            base = self.expr(node.value, env)
+            if base.kind == 'list':
+                idx = self.expr(node.slice, env)
+                if idx.kind == 'boollist':
+                    return V('list', app('lmask', base.coq, idx.coq))
+        return super().subscript(node, env)
+
     def load_name(self, dotted, env):
         if dotted not in env and dotted in self.spec.get('free_inputs', {}):
             self.types.setdefault(dotted, self.spec['free_inputs'][dotted])
@@ -134,6 +179,11 @@ class AnKernel(Kernel):
         args = node.args
         if dotted and dotted.split('.')[0] in ('np', 'numpy'):
             name = dotted.split('.', 1)[1]
+            if name == 'any' and len(args) == 1:
+                v = self.expr(args[0], env)
+                if v.kind == 'boollist':
+                    return V('bool', app('existsb', '(fun b_ => b_)', v.coq))
+                return v
             if name in ('mean', 'max', 'flip', 'reshape') and args:
                 v = self.expr(args[0], env)
                 if v.kind == 'list':
